@@ -105,7 +105,11 @@ func specResult(root *model.Node, op string) string {
 		return model.Render(f, BranchTuples[3])
 	case "text.b6":
 		return model.Render(f, BranchTuples[6])
-	case "walk", "iter":
+	case "text.massive":
+		return model.Render(f, model.DefaultBranch)
+	case "json.massive":
+		return f.String()
+	case "walk", "iter", "walk.massive":
 		var sb strings.Builder
 		for _, r := range model.Rows(f, model.DefaultBranch) {
 			fmt.Fprintf(&sb, "%s|%s|%s|%d|%s|%v\n", r.Row, r.Branch, r.Name, r.Level, r.Path, r.HasChild)
@@ -211,6 +215,39 @@ func (t *liveTree) runOp(op, tmp string) string {
 			return "ERR:" + errStr(o.Err) + fmt.Sprint(o.Panic)
 		}
 		return string(w.Bytes())
+	case "text.massive", "json.massive":
+		w := mon.NewRecWriter()
+		opts := []gtree.Option{gtree.WithMassive(context.Background())}
+		if op == "json.massive" {
+			opts = append(opts, gtree.WithEncodeJSON())
+		}
+		o := Guard(func() error { return gtree.OutputFromRoot(w, t.root, opts...) })
+		if o.Panic != nil || o.Err != nil {
+			return "ERR:" + errStr(o.Err) + fmt.Sprint(o.Panic)
+		}
+		if op == "json.massive" {
+			f, err := DecodeJSONLines(w.Bytes())
+			if err != nil {
+				return "UNDECODABLE:" + err.Error()
+			}
+			return f.String()
+		}
+		return string(w.Bytes())
+	case "walk.massive":
+		var mu sync.Mutex
+		var sb strings.Builder
+		o := Guard(func() error {
+			return gtree.WalkFromRoot(t.root, func(wn *gtree.WalkerNode) error {
+				mu.Lock()
+				defer mu.Unlock()
+				fmt.Fprintf(&sb, "%s|%s|%s|%d|%s|%v\n", wn.Row(), wn.Branch(), wn.Name(), wn.Level(), wn.Path(), wn.HasChild())
+				return nil
+			}, gtree.WithMassive(context.Background()))
+		})
+		if o.Panic != nil || o.Err != nil {
+			return "ERR:" + errStr(o.Err) + fmt.Sprint(o.Panic)
+		}
+		return sb.String()
 	case "walk":
 		var sb strings.Builder
 		o := Guard(func() error {
@@ -506,7 +543,7 @@ func runC13(c *Ctx) bool {
 	return runC13Concurrent(c)
 }
 
-var c13Ops = []string{"text", "text.b3", "text.b6", "walk", "iter", "json", "walkfail", "iterbreak", "textfail", "jsonfail", "dryrun", "mkdir", "verify", "mkdirfail", "verifyfail"}
+var c13Ops = []string{"text", "text.b3", "text.b6", "walk", "iter", "json", "walk.massive", "text.massive", "json.massive", "walkfail", "iterbreak", "textfail", "jsonfail", "dryrun", "mkdir", "verify", "mkdirfail", "verifyfail"}
 var c13Names = []string{"a", "b", "c", "x.gz", "d e", "日本"}
 
 func randHistory(r *gen.Rand, n, maxTrees int) []string {
@@ -529,7 +566,7 @@ func randHistory(r *gen.Rand, n, maxTrees int) []string {
 		default:
 			ops := c13Ops
 			if r.Chance(3, 4) {
-				ops = c13Ops[:11]
+				ops = c13Ops[:14]
 			}
 			h = append(h, "O"+strconv.Itoa(r.Intn(trees))+":"+ops[r.Intn(len(ops))])
 		}
@@ -675,7 +712,7 @@ func evalC13Concurrent(c *Ctx, cs *Case) {
 	if !c.Quick() {
 		steps = 150
 	}
-	opsConc := []string{"text", "text.b3", "text.b6", "walk", "iter", "json", "walkfail", "iterbreak", "textfail", "jsonfail", "mkdir", "verify", "mkdirfail", "verifyfail"} // no dry-run: it prints to the process-wide color.Output
+	opsConc := []string{"text", "text.b3", "text.b6", "walk", "iter", "json", "walk.massive", "text.massive", "walkfail", "iterbreak", "textfail", "jsonfail", "mkdir", "verify", "mkdirfail", "verifyfail"} // no dry-run: it prints to the process-wide color.Output
 	for g := 0; g < G; g++ {
 		wg.Add(1)
 		go func(g int) {
